@@ -40,6 +40,15 @@ def gen_cases(rng, tier: str) -> list[dict]:
         if h % 2 == 1:
             for ops in H.domain_prefixes(rng, pool):
                 cases.append({"origin": "domain-border", "pool": texts, "ops": ops + H.random_ops(rng, pool, 2)})
+        if h % 3 == 1:
+            # large members: their symbolic partials need hundreds of reduction steps, so that how much of the
+            # step budget earlier simplifications have saved (flags on shared objects) starts to matter
+            big = [e for _, e in gen.heavy_sums(rng, 1)]
+            pool5 = H.float_pool(big)
+            vs5 = sorted(pool5[0]._variable_names)
+            P5 = wire.point({n: 0.3 + 0.4 * k for k, n in enumerate(vs5)})
+            ops5 = [{"op": "normalize", "i": 0, "p": P5, "x": vs5[k % len(vs5)]} for k in (0, 1, 0, 2, 1, 0)]
+            cases.append({"origin": "large", "pool": H.pool_to_wire(pool5), "ops": ops5})
         if h % 3 == 2:
             pool4 = H.offender_pool(rng)
             cases.append({"origin": "offender", "pool": H.pool_to_wire(pool4),
@@ -100,7 +109,7 @@ def check_cases(cases: list[dict], rep: Report, known: dict) -> None:
             if got[0] == "err":
                 rep.count("failing-calls", got[1])
             if not H.same_result(got, want):
-                if w1.count or w2.count:
+                if (w1.count or w2.count) and model_exhausts_budget(c["pool"] + hist.extra_texts, op):
                     rep.known("K4", "result of a simplification that exhausts the 1000-step budget depends on flags left by earlier simplifications",
                               {"ops": [o["op"] for o in done], "failing_op": k, "pool_sizes": [len(t.split()) for t in c["pool"]]})
                 else:
@@ -117,6 +126,27 @@ def check_cases(cases: list[dict], rep: Report, known: dict) -> None:
         rep.corr_checked += 1
         if nc.verdict == "mismatch":
             rep.corr_break(f"entry point on a DAG with the actual memo contents differs from the heap model: {nc.detail}", nc.info)
+
+
+def model_exhausts_budget(pool_texts: list[str], op: dict) -> bool:
+    """K4 is about simplifications that need more than the library's 1000 steps. The warning alone does
+    not establish that (a smaller budget in the implementation would log it too): the model, whose budget
+    is the documented 1000, must run out of steps on the same never-used input as well."""
+    from ..core import Batch, parse_answer
+    i = op["i"] if op["i"] < len(pool_texts) else 0
+    e = H.build_pool(pool_texts)[i]
+    etxt = wire.expr(e)
+    names = sorted(e._variable_names) or ["x"]
+    b = Batch()
+    idx = [b.ask(f"F0 asexpr {kind} {x} {etxt}") for kind in ("P", "FE") for x in names[:4]]
+    b.run()
+    for j in idx:
+        k, rest = parse_answer(b[j])
+        if k == "ok" and rest[0] == "1":
+            return True
+        if k == "err" and rest == "fuel":
+            return True
+    return False
 
 
 def run(rep: Report, rng, tier: str, known: dict, search: bool = False) -> None:
